@@ -1,6 +1,7 @@
 // unit keys_glue (C07, C09): SEC1 public keys, private keys, P2PKH addresses
 use vstd::prelude::*;
 use vstd::std_specs::convert::*;
+use vstd::std_specs::cmp::*;
 //@include shims/macros.rs
 verus! {
 //@include shims/core.rs
@@ -48,10 +49,13 @@ impl Hash {
 //@struct ChainParams @ src/chainparams/mod.rs clone
 // opaque stand-ins: the script text built by format!() is outside this technique
 pub struct Script; pub struct SighashSignature;
-impl Script { #[verifier::external_body] pub fn from_asm_string(asm: &str) -> (r: Result<Script, BSVErrors>) { unimplemented!() } }
-impl SighashSignature { #[verifier::external_body] pub fn to_hex_impl(&self) -> (r: Result<String, BSVErrors>) { unimplemented!() } }
-impl PublicKey { #[verifier::external_body] pub fn to_hex_impl(&self) -> (r: Result<String, BSVErrors>) { unimplemented!() } }
-//@struct P2PKHAddress @ src/address/mod.rs clone
+// BSVErrors::GenerateScript is constructed at exactly one place in /repo/src (the ownership check of to_unlocking_script_impl);
+// the generator re-checks that on every run (//@onlyonce), so these callees cannot return it
+//@onlyonce `BSVErrors::GenerateScript(` in src
+impl Script { #[verifier::external_body] pub fn from_asm_string(asm: &str) -> (r: Result<Script, BSVErrors>) ensures r is Err ==> !(r->Err_0 is GenerateScript) { unimplemented!() } }
+impl SighashSignature { #[verifier::external_body] pub fn to_hex_impl(&self) -> (r: Result<String, BSVErrors>) ensures r is Err ==> !(r->Err_0 is GenerateScript) { unimplemented!() } }
+impl PublicKey { #[verifier::external_body] pub fn to_hex_impl(&self) -> (r: Result<String, BSVErrors>) ensures r is Err ==> !(r->Err_0 is GenerateScript) { unimplemented!() } }
+//@struct P2PKHAddress @ src/address/mod.rs clone partialeqspec
 impl P2PKHAddress {
 //@fn P2PKHAddress::from_pubkey_hash_impl
 //@fn P2PKHAddress::from_pubkey_impl
